@@ -9,12 +9,24 @@ import (
 
 var nativeWG sync.WaitGroup
 
+// natively the threads started since the last Settle/WaitThreads wait behind a gate and start
+// together when the main thread settles or waits (a legal schedule; it makes schedule-dependent
+// counterexamples likely to reproduce when the replay is repeated)
+var nativeGate = make(chan struct{})
+
+func openGate() {
+	close(nativeGate)
+	nativeGate = make(chan struct{})
+}
+
 // Go starts a thread. Under the engine (thread mode) it is a cooperative thread whose
 // interleavings with all other threads are explored; natively a goroutine.
 func Go(name string, fn func()) {
 	nativeWG.Add(1)
+	g := nativeGate
 	go func() {
 		defer nativeWG.Done()
+		<-g
 		fn()
 	}()
 }
@@ -23,6 +35,7 @@ func Go(name string, fn func()) {
 // in which that can never happen is a deadlock, reported under label; natively a two-second
 // timeout stands for "blocked forever".
 func WaitThreads(label string) {
+	openGate()
 	done := make(chan struct{})
 	go func() { nativeWG.Wait(); close(done) }()
 	select {
@@ -35,7 +48,10 @@ func WaitThreads(label string) {
 
 // Settle lets the threads started so far run until each is finished or blocked
 // (natively: a short sleep).
-func Settle() { time.Sleep(50 * time.Millisecond) }
+func Settle() { openGate(); time.Sleep(SettleTime) }
+
+// SettleTime is the native stand-in for "until every thread is finished or blocked".
+var SettleTime = 50 * time.Millisecond
 
 // Yield is a scheduling point.
 func Yield() { time.Sleep(time.Millisecond) }
